@@ -4,7 +4,7 @@ from .. import pure, common as C
 
 ENTRY = {0: "TCP remote", 1: "Unix-socket remote", 2: "SOCKS5 CONNECT", 3: "SOCKS4", 4: "SOCKS4a", 5: "HTTP CONNECT"}
 SHAPE = {0: "local writes+half-closes, target answers after EOF", 1: "target writes+half-closes, local answers after EOF",
-         2: "both write at once", 3: "target writes then closes", 4: "local writes then closes", 5: "target refuses", 6: "target answers, half-closes, then closes during the upload"}
+         2: "both write at once", 3: "target writes then closes", 4: "local writes then closes", 5: "target refuses", 6: "target answers, half-closes, then closes during the upload", 7: "slow half-closed target, 3 MB upload"}
 
 
 class C01(pure.Spec):
@@ -21,7 +21,7 @@ class C01(pure.Spec):
             "driven by the harness: every entry point (TCP remote, Unix-socket remote, SOCKS5 CONNECT with IPv4 and domain "
             "names, SOCKS4, SOCKS4a, HTTP CONNECT) x six connection shapes (half-close by either side first with the "
             "answer sent afterwards, both directions at once, close by the target, close by the local client, refusing "
-            "target, target closing completely during an upload after having half-closed), 1-5 concurrent connections, chunk sizes 0..200 kB (several windows); UDP remote and SOCKS5 UDP "
+            "target, target closing completely during an upload after having half-closed, a slow half-closed target receiving a 3 MB upload), 1-5 concurrent connections, chunk sizes 0..200 kB (several windows); UDP remote and SOCKS5 UDP "
             "association (own or shared association, IPv4 and domain-name headers), 1-4 concurrent clients, datagram sizes "
             "0..8 kB. Observed: bytes received at both ends compared byte by byte with the peer's stream, how each side "
             "saw the end (clean EOF / reset / still open after 6 s), per UDP client the replies that are its own, foreign "
